@@ -17,7 +17,7 @@ package main
 //
 // Every op runs to quiescence: after an op that broadcasts, every request that was
 // parked has either returned or reached its `cond.Wait()` again. "Parked" is
-// observed through the wait:* yield points (called with the mutex held, directly
+// observed through the muxer.wait yield points (called with the mutex held, directly
 // before cond.Wait) followed by a TryLock barrier; "blocked" = neither returned
 // nor parked within the deadline.
 //
@@ -60,8 +60,33 @@ var concSPS = []byte{
 
 const (
 	concFrameTicks = 18000 // 200 ms at 90 kHz
-	concDeadline   = 1500 * time.Millisecond
+	concDeadline   = 600 * time.Millisecond
 )
+
+// concStuckCases counts cases in which something did not come back within the deadline. Such
+// cases are failures already; to keep a failing run short the rest of a stuck case, and every
+// case after the third stuck one, runs with a short deadline (the run is red by then; a
+// too short deadline can only add spurious `blocked` observations to an already failing run).
+var concStuckCases atomic.Int64
+
+func (r *concRunner) deadline() time.Duration {
+	switch {
+	case r.stuck:
+		return 40 * time.Millisecond
+	case concStuckCases.Load() >= 8:
+		return 25 * time.Millisecond
+	case concStuckCases.Load() >= 3:
+		return 100 * time.Millisecond
+	}
+	return concDeadline
+}
+
+func (r *concRunner) setStuck() {
+	if !r.stuck {
+		r.stuck = true
+		concStuckCases.Add(1)
+	}
+}
 
 var concTime0 = time.Date(2010, 1, 1, 1, 1, 1, 0, time.UTC)
 
@@ -69,15 +94,16 @@ var concTime0 = time.Date(2010, 1, 1, 1, 1, 1, 0, time.UTC)
 // runner
 
 type concReq struct {
-	id     int
-	kind   string
-	sid    int
-	msn    int
-	part   int
-	hid    int
-	done   bool
-	status int
-	body   string
+	id      int
+	kind    string
+	sid     int
+	msn     int
+	part    int
+	hid     int
+	hasPart bool
+	done    bool
+	status  int
+	body    string
 	// bookkeeping for the oracle
 	afterClose   bool // issued after Close had returned
 	pendingClose bool // pending (parked) when Close returned
@@ -113,7 +139,7 @@ type concRunner struct {
 func (concSlice) NewRunner() Runner { return &concRunner{} }
 
 func (r *concRunner) hook(point string) {
-	if strings.HasPrefix(point, "wait:") {
+	if point == "muxer.wait" { // before every cond.Wait() of a handler, mutex held
 		r.arrivals.Add(1)
 		return
 	}
@@ -144,7 +170,7 @@ func concKV(ws []string, k string) string {
 func concAtoi(s string) int { v, _ := strconv.Atoi(s); return v }
 
 func (r *concRunner) waitUntil(cond func() bool) bool {
-	dl := time.Now().Add(concDeadline)
+	dl := time.Now().Add(r.deadline())
 	for i := 0; ; i++ {
 		if cond() {
 			return true
@@ -348,12 +374,12 @@ func (r *concRunner) write(ws []string) []string {
 		}
 		rot := concKV(ws, "rot")
 		if rot != "none" && !r.settle(woken, base) {
-			r.stuck = true
+			r.setStuck()
 			return []string{"w unsettled " + r.counters()}
 		}
 		return []string{"w " + r.counters()}
-	case <-time.After(concDeadline):
-		r.stuck = true
+	case <-time.After(r.deadline()):
+		r.setStuck()
 		r.setHold("")
 		return []string{"w blocked"}
 	}
@@ -373,12 +399,12 @@ func (r *concRunner) wrel() []string {
 		if err != nil {
 			return []string{"w err"}
 		}
-	case <-time.After(concDeadline):
-		r.stuck = true
+	case <-time.After(r.deadline()):
+		r.setStuck()
 		return []string{"w blocked"}
 	}
 	if !r.settle(woken, base) {
-		r.stuck = true
+		r.setStuck()
 		return []string{"w unsettled " + r.counters()}
 	}
 	return []string{"w " + r.counters()}
@@ -389,9 +415,18 @@ func (r *concRunner) req(ws []string) []string {
 		return []string{"bad-op"}
 	}
 	q := &concReq{id: concAtoi(concKV(ws, "id")), kind: concKV(ws, "k"), sid: concAtoi(concKV(ws, "s")),
-		msn: concAtoi(concKV(ws, "msn")), part: concAtoi(concKV(ws, "part")), hid: concAtoi(concKV(ws, "hid"))}
+		msn: concAtoi(concKV(ws, "msn")), part: concAtoi(concKV(ws, "part")), hid: concAtoi(concKV(ws, "hid")),
+		hasPart: concKV(ws, "part") != ""}
 	if q.sid >= gohlslib.VerifMuxerStreamCount(r.m) {
 		return []string{"bad-op"}
+	}
+	if q.kind == "hint" && gohlslib.VerifMuxerTryLock(r.m) {
+		// only the currently advertised preload hint is a valid target (anything else is either the
+		// real part handler or an unknown path); keeps shrunk scenarios meaningful
+		_, np, _, _ := gohlslib.VerifMuxerStreamCounters(r.m, q.sid)
+		if r.variant != "ll" || np == 0 || uint64(q.hid) != np {
+			return []string{"bad-op"}
+		}
 	}
 	var pq string
 	switch q.kind {
@@ -432,7 +467,7 @@ func (r *concRunner) req(ws []string) []string {
 		r.mu.Lock()
 		q.blockedAtReq = true
 		r.mu.Unlock()
-		r.stuck = true
+		r.setStuck()
 		return []string{fmt.Sprintf("req %d blocked", q.id)}
 	}
 	r.mu.Lock()
@@ -445,7 +480,7 @@ func (r *concRunner) req(ws []string) []string {
 	// parked: make sure it is inside cond.Wait. The barrier cannot succeed while a held
 	// closer/writer is outside its critical section? It can: hold points are outside the mutex.
 	if !r.barrier() {
-		r.stuck = true
+		r.setStuck()
 		return []string{fmt.Sprintf("req %d parked-nobarrier", q.id)}
 	}
 	return []string{fmt.Sprintf("req %d parked", q.id)}
@@ -488,7 +523,7 @@ func (r *concRunner) closeProgress(woken []*concReq, base int64) []string {
 			to = "before"
 		}
 		if !finish(to) {
-			r.stuck = true
+			r.setStuck()
 			return []string{"close held unsettled"}
 		}
 		return []string{"close held"}
@@ -505,12 +540,12 @@ func (r *concRunner) closeProgress(woken []*concReq, base int64) []string {
 		}
 		r.mu.Unlock()
 		if !settled {
-			r.stuck = true
+			r.setStuck()
 			return []string{"close done unsettled"}
 		}
 		return []string{"close done"}
-	case <-time.After(concDeadline):
-		r.stuck = true
+	case <-time.After(r.deadline()):
+		r.setStuck()
 		r.setHold("")
 		return []string{"close blocked"}
 	}
@@ -599,6 +634,9 @@ func (r *concRunner) published(q *concReq) bool {
 	case "hint":
 		return np > uint64(q.hid)
 	case "block":
+		if !q.hasPart {
+			return hc && uint64(q.msn) < ns // the complete segment is listed
+		}
 		// only the unambiguous case: a part index of the open segment
 		return hc && uint64(q.msn) == ns && q.part < open
 	}
@@ -642,7 +680,7 @@ func (r *concRunner) Close() {
 			go func() { r.m.Close(); close(done) }()
 			select {
 			case <-done:
-			case <-time.After(concDeadline):
+			case <-time.After(r.deadline()):
 			}
 		}
 		gohlslib.VerifSetYieldHook(nil)
@@ -743,7 +781,8 @@ func (s *concSim) hasContent() bool {
 	return n >= 1
 }
 
-// hasPart mirrors muxerStream.hasPart (including its roll-over behaviour).
+// hasPart mirrors muxerStream.hasPart (roll-over to part 0 of the following segment, which may
+// be the open one).
 func (s *concSim) hasPart(msn, part int) bool {
 	if msn == s.ns {
 		return part < s.openParts
@@ -758,7 +797,22 @@ func (s *concSim) hasPart(msn, part int) bool {
 			return true
 		}
 	}
+	if msn == s.ns {
+		return part < s.openParts
+	}
 	return false
+}
+
+// ready mirrors the blocking-reload test of handleMediaPlaylist: with _HLS_part the part must be
+// published, without it the whole segment must be complete.
+func (s *concSim) ready(msn, part int) bool {
+	if !s.hasContent() {
+		return false
+	}
+	if part < 0 {
+		return msn < s.ns
+	}
+	return s.hasPart(msn, part)
 }
 
 type concPendingBlock struct {
@@ -792,7 +846,7 @@ func (concSlice) Gen(rng *rand.Rand, i int, tier string) ([]string, []string) {
 		if sim.variant == "ll" {
 			for k := range blocks {
 				b := &blocks[k]
-				if b.opIdx >= 0 && sim.hasContent() && sim.hasPart(b.msn, b.part) {
+				if b.opIdx >= 0 && sim.ready(b.msn, b.part) {
 					ops[b.opIdx] = strings.Replace(ops[b.opIdx], "tgt=?", fmt.Sprintf("tgt=%d", sim.np), 1)
 					b.opIdx = -1
 				}
@@ -865,19 +919,16 @@ func (concSlice) Gen(rng *rand.Rand, i int, tier string) ([]string, []string) {
 				tags = append(tags, "block:msn-only")
 			}
 			ps := ""
-			p := part
 			if part >= 0 {
 				ps = fmt.Sprintf(" part=%d", part)
-			} else {
-				p = 0
 			}
 			l := fmt.Sprintf("req id=%d k=block s=%d msn=%d%s tgt=?", id, sid, msn, ps)
-			if sim.hasContent() && sim.hasPart(msn, p) {
+			if sim.ready(msn, part) {
 				l = strings.Replace(l, "tgt=?", fmt.Sprintf("tgt=%d", sim.np), 1)
 				ops = append(ops, l)
 			} else {
 				ops = append(ops, l)
-				blocks = append(blocks, concPendingBlock{opIdx: len(ops) - 1, msn: msn, part: p})
+				blocks = append(blocks, concPendingBlock{opIdx: len(ops) - 1, msn: msn, part: part})
 			}
 		}
 	}
